@@ -169,6 +169,17 @@ impl Bundle<FrameContext<'_>> for Frame {
             return Err(jxl_bitstream::Error::ValidationFailed("lf_level out of range").into());
         }
 
+        if header.encoding == header::Encoding::VarDct
+            && !header.flags.skip_adaptive_lf_smoothing()
+            && header.jpeg_upsampling.iter().any(|&j| j != 0)
+        {
+            tracing::error!("Adaptive LF smoothing cannot be used with chroma subsampling");
+            return Err(jxl_bitstream::Error::ValidationFailed(
+                "adaptive LF smoothing is enabled with chroma subsampling",
+            )
+            .into());
+        }
+
         let color_upsampling_shift = header.upsampling.trailing_zeros();
         for (ec_upsampling, ec_info) in header
             .ec_upsampling
